@@ -123,6 +123,8 @@ MakeJudge(cand, known, np, rp) ==
        (IF cand # {} THEN << <<Ev.mv = MoveDesc(CHOOSE x \in cand : TRUE), "X-move", "move record " \o ToString(Ev.mv), ToString(MoveDesc(CHOOSE x \in cand : TRUE))>> >> ELSE <<>>) \o
        (IF known THEN SnapChecks(np, Ev.snap, "C02") ELSE <<>>) \o
        << <<Ev.valid = IsValid(rp), "C05", "is_valid after make", ToString(IsValid(rp))>>,
+          <<Ev.chk = <<InCheck(rp.bd, "w"), InCheck(rp.bd, "b"), InCheck(rp.bd, rp.stm)>>, "C05", "check queries after make",
+            ToString(<<InCheck(rp.bd, "w"), InCheck(rp.bd, "b"), InCheck(rp.bd, rp.stm)>>)>>,
           <<Ev.valid = (cand # {}) \/ ~known, "C01", "move passes the validity filter iff legal", ToString(cand # {})>>,
           <<Xor64(oh[1], Ev.d) = Ev.snap.h, "C06", "hash before XOR zobrist_xor(move) = hash after", ToString(Xor64(oh[1], Ev.d))>>,
           <<Xor64(oh[2], Ev.pd) = Ev.snap.ph, "C06", "pawn hash before XOR delta = pawn hash after", ToString(Xor64(oh[2], Ev.pd))>> >>)
@@ -145,7 +147,11 @@ Unmake ==
   /\ IF stack = <<>>
      THEN /\ Record(<< <<FALSE, "C03", "unmake without make in trace", "">> >>)
           /\ UNCHANGED <<pos, lg, stack, oh, ntr>>
-     ELSE /\ Record(SnapChecks(stack[Len(stack)].pos, Ev.snap, "C03"))
+     ELSE /\ Record(
+               << <<Ev.chk = <<InCheck(stack[Len(stack)].pos.bd, "w"), InCheck(stack[Len(stack)].pos.bd, "b"),
+                               InCheck(stack[Len(stack)].pos.bd, stack[Len(stack)].pos.stm)>>, "C05",
+                    "check queries on the position restored by unmake", "the restored position's own status">> >>
+               \o SnapChecks(stack[Len(stack)].pos, Ev.snap, "C03"))
           /\ UnmakeTo(stack[Len(stack)], Resync(stack[Len(stack)].pos, Ev.snap))
           /\ stack' = SubSeq(stack, 1, Len(stack) - 1)
           /\ oh' = <<Ev.snap.h, Ev.snap.ph>>
